@@ -143,7 +143,30 @@ func evalC17(r *runner, u *c17Unit, c C17Case) string {
 		res.key, res.msg = obsKey(o), o.ErrString
 		return res
 	}
-	// sequential reference results
+	// The concurrent rounds run FIRST, on whatever state the process is in: a
+	// lazily filled shared cache is written on first use, and a sequential
+	// pass beforehand would warm it up and hide the unsynchronised write from
+	// the race detector. The sequential reference results are computed after.
+	got := make([][]c17Res, c.Rounds)
+	for round := 0; round < c.Rounds; round++ {
+		got[round] = make([]c17Res, len(c.Jobs)+c.Goroutines)
+		start := make(chan struct{})
+		var wg sync.WaitGroup
+		for g := 0; g < c.Goroutines; g++ {
+			wg.Add(1)
+			go func(g int) {
+				defer wg.Done()
+				sess := ps.NewSession() // this goroutine's own parser object
+				<-start
+				for k := g; k < len(c.Jobs)+c.Goroutines; k += c.Goroutines {
+					got[round][k] = do(sess, c.Jobs[k%len(c.Jobs)])
+				}
+			}(g)
+		}
+		close(start)
+		wg.Wait()
+		r.col.Eval()
+	}
 	want := make([]c17Res, len(c.Jobs))
 	failing := 0
 	for i, j := range c.Jobs {
@@ -152,36 +175,15 @@ func evalC17(r *runner, u *c17Unit, c C17Case) string {
 			failing++
 		}
 	}
-	for round := 0; round < c.Rounds; round++ {
-		start := make(chan struct{})
-		var wg sync.WaitGroup
-		errs := make([]string, c.Goroutines)
-		for g := 0; g < c.Goroutines; g++ {
-			wg.Add(1)
-			go func(g int) {
-				defer wg.Done()
-				sess := ps.NewSession() // this goroutine's own parser object
-				<-start
-				for k := g; k < len(c.Jobs)+c.Goroutines; k += c.Goroutines {
-					i := k % len(c.Jobs)
-					got := do(sess, c.Jobs[i])
-					if !sameToks(got.toks, want[i].toks) {
-						errs[g] = fmt.Sprintf("goroutine %d, job %d (source %q): token stream differs from the sequential run", g, i, c.Jobs[i].Src)
-						return
-					}
-					if got.key != want[i].key || got.msg != want[i].msg {
-						errs[g] = fmt.Sprintf("goroutine %d, job %d (tokens %v): concurrently\n  %s\n  %q\nalone\n  %s\n  %q", g, i, c.Jobs[i].Toks, got.key, got.msg, want[i].key, want[i].msg)
-						return
-					}
-				}
-			}(g)
-		}
-		close(start)
-		wg.Wait()
-		r.col.Eval()
-		for _, e := range errs {
-			if e != "" {
-				return fmt.Sprintf("grammar:\n%s\nvariant %q, %d goroutines, round %d: %s", u.src, c.Variant, c.Goroutines, round, e)
+	for round := range got {
+		for k, res := range got[round] {
+			i := k % len(c.Jobs)
+			g := k % c.Goroutines
+			if !sameToks(res.toks, want[i].toks) {
+				return fmt.Sprintf("grammar:\n%s\nvariant %q, %d goroutines, round %d: goroutine %d, job %d (source %q): token stream differs from the sequential run", u.src, c.Variant, c.Goroutines, round, g, i, c.Jobs[i].Src)
+			}
+			if res.key != want[i].key || res.msg != want[i].msg {
+				return fmt.Sprintf("grammar:\n%s\nvariant %q, %d goroutines, round %d: goroutine %d, job %d (tokens %v): concurrently\n  %s\n  %q\nalone\n  %s\n  %q", u.src, c.Variant, c.Goroutines, round, g, i, c.Jobs[i].Toks, res.key, res.msg, want[i].key, want[i].msg)
 			}
 		}
 	}
